@@ -76,6 +76,15 @@ theories/Layout/Layout.vos theories/Layout/Layout.vok theories/Layout/Layout.req
 theories/Layout/LayoutProofs.vo theories/Layout/LayoutProofs.glob theories/Layout/LayoutProofs.v.beautified theories/Layout/LayoutProofs.required_vo: theories/Layout/LayoutProofs.v theories/Layout/Layout.vo
 theories/Layout/LayoutProofs.vio: theories/Layout/LayoutProofs.v theories/Layout/Layout.vio
 theories/Layout/LayoutProofs.vos theories/Layout/LayoutProofs.vok theories/Layout/LayoutProofs.required_vos: theories/Layout/LayoutProofs.v theories/Layout/Layout.vos
+theories/Resize/ResizeGeom.vo theories/Resize/ResizeGeom.glob theories/Resize/ResizeGeom.v.beautified theories/Resize/ResizeGeom.required_vo: theories/Resize/ResizeGeom.v theories/Layout/Layout.vo
+theories/Resize/ResizeGeom.vio: theories/Resize/ResizeGeom.v theories/Layout/Layout.vio
+theories/Resize/ResizeGeom.vos theories/Resize/ResizeGeom.vok theories/Resize/ResizeGeom.required_vos: theories/Resize/ResizeGeom.v theories/Layout/Layout.vos
+theories/Resize/ResizeProofs.vo theories/Resize/ResizeProofs.glob theories/Resize/ResizeProofs.v.beautified theories/Resize/ResizeProofs.required_vo: theories/Resize/ResizeProofs.v theories/Layout/Layout.vo theories/Resize/ResizeGeom.vo
+theories/Resize/ResizeProofs.vio: theories/Resize/ResizeProofs.v theories/Layout/Layout.vio theories/Resize/ResizeGeom.vio
+theories/Resize/ResizeProofs.vos theories/Resize/ResizeProofs.vok theories/Resize/ResizeProofs.required_vos: theories/Resize/ResizeProofs.v theories/Layout/Layout.vos theories/Resize/ResizeGeom.vos
+theories/Properties_C08.vo theories/Properties_C08.glob theories/Properties_C08.v.beautified theories/Properties_C08.required_vo: theories/Properties_C08.v theories/Layout/Layout.vo theories/Resize/ResizeGeom.vo theories/Resize/ResizeProofs.vo
+theories/Properties_C08.vio: theories/Properties_C08.v theories/Layout/Layout.vio theories/Resize/ResizeGeom.vio theories/Resize/ResizeProofs.vio
+theories/Properties_C08.vos theories/Properties_C08.vok theories/Properties_C08.required_vos: theories/Properties_C08.v theories/Layout/Layout.vos theories/Resize/ResizeGeom.vos theories/Resize/ResizeProofs.vos
 theories/Properties_C20.vo theories/Properties_C20.glob theories/Properties_C20.v.beautified theories/Properties_C20.required_vo: theories/Properties_C20.v theories/Layout/Layout.vo theories/Layout/LayoutProofs.vo
 theories/Properties_C20.vio: theories/Properties_C20.v theories/Layout/Layout.vio theories/Layout/LayoutProofs.vio
 theories/Properties_C20.vos theories/Properties_C20.vok theories/Properties_C20.required_vos: theories/Properties_C20.v theories/Layout/Layout.vos theories/Layout/LayoutProofs.vos
